@@ -5,7 +5,7 @@ CONSTANTS
   MaxRounds = 60
 INVARIANTS
   ConformCfg ConformView ConformSynced ConformRes ConformOutputs ConformFee SameBytes EngineOk
-  TxInvariants
+  TxInvariants TermsAgree ConformScripts
   ConformProposal ConformFinished ConformCache ConformEnd
   Bounded BoundedDefault BothSigned Agree NoStall NoAbort Between
 CHECK_DEADLOCK TRUE
